@@ -279,6 +279,51 @@ func clientScenario(wd *world, at string, closers int, sockErr bool, extraHS int
 	<-served
 }
 
+// silentScenario: the server never answers and nobody calls Close: the handshake and every call waiting for it must
+// end by themselves at the earlier of the two limits a client can be given (a timeout and an absolute deadline).
+func silentScenario(wd *world, limits string) {
+	scn++
+	id := scn
+	ev := func(kv ...any) {
+		w.Ev("call", append([]any{"sc", id, "obj", "client", "at", "silent-" + limits, "closers", 0, "sockerr", "no", "extrahs", 1}, kv...)...)
+	}
+	s, sc, served := wd.server(nil)
+	wd.port++
+	cc := newConn(wd.net.Listen(simwire.Addr("10.0.1.1", wd.port)))
+	cfg := transport.ClientConfig{Exchanger: wd.cid.Key, Leaf: wd.cid.Leaf, Intermediate: wd.cid.Inter, Verify: *wd.pki.Policy("store", "a.example")}
+	short, long := 300*time.Millisecond, 30*time.Second
+	switch limits {
+	case "timeout":
+		cfg.HSTimeout = short
+	case "deadline":
+		cfg.HSDeadline = time.Now().Add(short)
+	case "both-deadline-first":
+		cfg.HSTimeout, cfg.HSDeadline = long, time.Now().Add(short)
+	case "both-timeout-first":
+		cfg.HSTimeout, cfg.HSDeadline = short, time.Now().Add(long)
+	}
+	c := transport.NewClient(cc, sc.Endpoint.Addr(), cfg)
+	sc.Endpoint.Close() // nothing will ever answer
+	var wg sync.WaitGroup
+	call := func(op string, f func() error) {
+		wg.Add(1)
+		go func() {
+			defer wg.Done()
+			res, ms, ret := timed(6*time.Second, func() string { return errs(f()) })
+			ev("op", op, "res", res, "ms", ms, "ret", yn(ret))
+		}()
+	}
+	call("silent-handshake", c.Handshake)
+	time.Sleep(5 * time.Millisecond)
+	call("silent-handshake", c.Handshake)
+	call("silent-write", func() error { _, err := c.Write([]byte("x")); return err })
+	call("silent-read", func() error { _, err := c.ReadMsg(make([]byte, 10)); return err })
+	wg.Wait()
+	timed(5*time.Second, func() string { return errs(c.Close()) })
+	s.Close()
+	<-served
+}
+
 // serverScenario: Close on a serving server with sessions, concurrent Accept callers and Close callers.
 func serverScenario(wd *world, clients, msgs, closers int, sockErr bool) {
 	scn++
@@ -574,6 +619,11 @@ func main() {
 					w.Flush()
 				}
 			}
+		}
+		for _, lim := range []string{"timeout", "deadline", "both-deadline-first", "both-timeout-first"} {
+			w.Ev("scenario", "obj", "client", "at", "silent-"+lim, "closers", 0, "sockerr", "no", "extrahs", 1)
+			silentScenario(wd, lim)
+			w.Flush()
 		}
 		for _, cl := range []int{0, 1, 2} {
 			for _, msgs := range []int{0, 2} {
